@@ -72,11 +72,19 @@ def cache_part(chk):
     seen = set()
     for t in r.printed("BAD"):
         rec = recs[t[1] - 1]
-        if t[2].startswith("C24:"):
-            fp = f"{t[2]} key={rec['key']} flag={rec['par']}"
+        if t[2] == "C24:slot-not-canon":
+            # one finding per slot that ever differs from its canonical value
+            for slot in rec["neq"]:
+                fp = f"C24:slot-not-canon slot={slot}"
+                if fp not in seen:
+                    seen.add(fp)
+                    chk.violation(fp, f"cache slot {slot} differs from the direct evaluation of its canonical function "
+                                      f"after cache.get({rec['key']}, is_singlet={rec['par']})", rec)
+        elif t[2].startswith("C24:"):
+            fp = f"{t[2]} key={rec['key']}"
             if fp not in seen:
                 seen.add(fp)
-                chk.violation(fp, f"cache.get({rec['key']}, is_singlet={rec['par']}): {t[2]}; slots differing from canon: {rec['neq']}", rec)
+                chk.violation(fp, f"cache.get({rec['key']}, is_singlet={rec['par']}): {t[2]}", rec)
         else:
             chk.diag(f"{t[2]} at call {rec['key']} flag {rec['par']}")
     # binding demonstration
